@@ -300,6 +300,23 @@ def evaluate_case(case):
             if opts.get("dst_stray_dir"):
                 # the destination job's directory exists already, but signac did not create it (no state point file)
                 os.makedirs(os.path.join(pd, "workspace", ids[opts["job_index"]], "inputs"))
+            if opts.get("funny_entries"):
+                # entries of mixed type (regular file in the source job, directory in the destination job) next to
+                # every file the two jobs share: `dircmp` files them under common_funny and the sync leaves them alone
+                for i, name in enumerate(shapes):
+                    sh = SHAPES[name]
+                    if "src" not in sh or "dst" not in sh:
+                        continue
+                    dirs = {os.path.dirname(rel) for rel in sh["src"]["files"] if rel in sh["dst"]["files"]} | {""}
+                    for d in sorted(dirs):
+                        sp_, dp_ = (os.path.join(x, "workspace", ids[i], d, "mixed.dat") for x in (ps, pd))
+                        with open(sp_, "w") as f:
+                            f.write("MF")
+                        os.utime(sp_, (T0, T0))
+                        os.makedirs(dp_)
+                        with open(os.path.join(dp_, "keep.txt"), "w") as f:
+                            f.write("MK")
+                        os.utime(os.path.join(dp_, "keep.txt"), (T0, T0))
             job_level = entry in ("Job.sync", "sync_jobs")
             before_s, before_d = snap(ps), snap(pd)
             sig_s = {k: (os.stat(os.path.join(ps, k)).st_size, os.stat(os.path.join(ps, k)).st_mtime)
@@ -725,6 +742,8 @@ def deep_cases(tier):
         if entry in ("Job.sync", "sync_jobs"):
             o["job_index"] = 0
         yield ((name,), "none", o, entry)
+        if name != "identical":
+            yield ((name,), "none", dict(o, funny_entries=True), entry)
 
 
 def dry_cases(tier):
